@@ -8,11 +8,13 @@ PROPS_FILE = "C18.v"
 RUN_MODULE = "RunC18"
 TRANSLATOR_UNITS = []
 RULE = ("port algebra: exhaustive one-step scope (widths 0..4: every int index in [-w-1,w], every slice with start/stop in "
-        "{None} u [-w-1,w+1] x step in {None,1,2,3,-1,-2,0}, every inversion mask for int indices, 2 masks for slices; "
+        "{None} u [-w-1,w+1] x step in {None,1,2,3,-1,-2,0} (all of them in thorough; in quick all for w <= 1 and a 30% sample "
+        "for w >= 2), every inversion mask for int indices, 2 masks for slices; "
         "`+` of every direction pair and kind pair; `~`) + random expressions of <= 3 slicing/`+`/`~` steps over 1..3 base ports "
         "(widths 0..6, kinds Simulation/SingleEnded/Differential) + malformed bases; "
         "Buffer simulated on SimulationPorts: widths 0..4 x all masks x all 9 (port,buffer) direction pairs with exhaustive "
-        "o/oe/i words for width <= 2 and random words otherwise, then random port expressions (duplicated wires included); "
+        "o/oe/i words for width <= 2 and random words otherwise, then random port expressions (duplicated wires included; "
+        "ports sliced out of a port that repeats a wire are capped at 25/120 cases, tag alias_under_slice: known finding); "
         "FFBuffer: the same with sync / separate i,o domains / wrongly supplied domains and random edge patterns of 10 events; "
         "netlist: 1..3 Buffers on slices of 1..3 SingleEnded/Differential IOPort-based ports (partitions, overlaps, reuse) "
         "through Fragment.get + build_netlist, IOBuffer cells decoded symbolically (xor/not with constants traced to the "
@@ -25,8 +27,8 @@ MODELLED = ("lib.io Direction.__and__, SingleEndedPort/DifferentialPort/Simulati
             "are modelled in coq/Model/Io.v; the simulator's settling of the combinational statements, wiring.Component "
             "signature plumbing, Fragment/Design traversal order and nir net allocation are validated only")
 ASSUMPTIONS = ["CPython slice.indices / tuple slicing semantics as modelled by Io.slice_indices/range_list (validated by the run)",
-               "simulator semantics of comb assignment to Cat/Slice targets = per-bit assignment in order (validated by the run)"]
-SHARD = 250
+               "simulator semantics of comb assignment to Cat/Slice targets = per-bit assignment in order (validated by the run; the simulator deviates for a Slice of a Cat that repeats a signal bit: finding C18-SIM-LHS-ALIAS, Props C18_sim_lhs_alias_refuted)"]
+SHARD = 500
 
 DIRS = ["i", "o", "io"]
 ERR = {"IndexError": 1, "ValueError": 2, "TypeError": 3, "DriverConflict": 4}
@@ -39,9 +41,12 @@ def classify(c):
 def nontrivial(c, obs):
     if not obs or obs[0] != 1:
         return False
-    if max((b[2] for b in c["bases"]), default=0) == 0:
-        return False
-    return True
+    widths = [b[2] for b in c["bases"]]
+    if c["k"] == "port":
+        return max(widths, default=0) > 0
+    if c["k"] == "net":
+        return any((_plen(e, widths) or 0) > 0 for _, e in c["bufs"])
+    return (_plen(c["e"], widths) or 0) > 0
 
 
 # ------------------------------------------------------------------ expression helpers (generator side)
@@ -66,6 +71,48 @@ def _plen(e, widths):
     if s == 1 and a > b:
         return None
     return len(range(a, b, s))
+
+
+def _wires(e, widths, seen=None):
+    """(wire list of a port expression, True if some subexpression under a slice/index repeats a wire);
+    None if it raises.  Wires are (base, bit)."""
+    t = e[0]
+    if t == "b":
+        return [(e[1], k) for k in range(widths[e[1]])], False
+    if t == "~":
+        return _wires(e[1], widths)
+    if t == "+":
+        a, b = _wires(e[1], widths), _wires(e[2], widths)
+        if a is None or b is None:
+            return None
+        return a[0] + b[0], a[1] or b[1]
+    r = _wires(e[1], widths)
+    if r is None:
+        return None
+    w, al = r
+    al = al or len(set(w)) != len(w)
+    n = len(w)
+    if t == "i":
+        return ([w[e[2]]], al) if -n <= e[2] < n else None
+    if e[4] == 0:
+        return None
+    a, b, s = slice(e[2], e[3], e[4]).indices(n)
+    if s == 1 and a > b:
+        return None
+    return [w[i] for i in range(a, b, s)], al
+
+
+def _alias_under_slice(c):
+    r = _wires(c["e"], [b[2] for b in c["bases"]])
+    return bool(r and r[1])
+
+
+def known_finding(case, obs, model):
+    # The simulator lowers an assignment to Slice(Cat(...)) as read-modify-write of the whole Cat; when the Cat
+    # names a signal bit twice, the stale copy is written back over the new value (netlist semantics: per bit).
+    if case["k"] in ("buf", "ff") and _alias_under_slice(case):
+        return "C18-SIM-LHS-ALIAS"
+    return None
 
 
 def _rand_step(rng, e, widths, nb, malformed):
@@ -182,7 +229,7 @@ def gen_cases(tier, seed):
             for a in ends:
                 for b in ends:
                     for st in (None, 1, 2, 3, -1, -2, 0):
-                        if not thorough and w >= 3 and rng.random() < 0.5:
+                        if not thorough and w >= 2 and rng.random() < 0.7:
                             continue
                         kind = rng.randrange(3)
                         cases.append({"k": "port", "tag": "slice", "bases": [[kind, rng.randrange(3), w, _bits(m, w), 0]],
@@ -209,7 +256,7 @@ def gen_cases(tier, seed):
                               "bases": [[kind, rng.randrange(3), w, [rng.randrange(2) for _ in range(l)], 0]],
                               "e": ["b", 0]})
     # random expressions
-    for _ in range(1500 if not thorough else 25000):
+    for _ in range(1000 if not thorough else 15000):
         nb = rng.randrange(1, 4)
         kind = rng.randrange(3)
         bases = [_rand_base(rng, kind if rng.random() < 0.93 else rng.randrange(3)) for _ in range(nb)]
@@ -233,12 +280,13 @@ def gen_cases(tier, seed):
                         for doms in ("sync", "ab"):
                             cases.append({"k": "ff", "tag": (doms if ok else "baddir"), "bases": [base], "e": ["b", 0],
                                           "bd": bd, "doms": doms, "steps": _steps(rng, [base], 10, True, doms == "sync")})
-    for bd in range(3):
-        for doms in ("bad_i", "bad_o", "bad_io"):
-            base = [0, 2, 2, [1, 0], 0]
+    for bd, doms in ((1, "bad_i"), (1, "bad_io"), (0, "bad_o"), (0, "bad_io")):
+        for w in (0, 2):
+            base = [0, 2, w, [1, 0][:w], 0]
             cases.append({"k": "ff", "tag": "baddom", "bases": [base], "e": ["b", 0], "bd": bd, "doms": doms,
                           "steps": _steps(rng, [base], 4, True, False)})
-    for _ in range(1500 if not thorough else 20000):
+    n_alias = 0
+    for _ in range(1000 if not thorough else 12000):
         nb = rng.randrange(1, 4)
         bad = rng.random() < 0.1
         ds, bd = _compat_dirs(rng, nb, bad)
@@ -246,6 +294,12 @@ def gen_cases(tier, seed):
         mal = rng.random() < 0.08
         e = _rand_expr(rng, [b[2] for b in bases], nb, rng.randrange(0, 4), mal)
         tag = "rand" + ("_baddir" if bad else "") + ("_mal" if mal else "")
+        if _alias_under_slice({"e": e, "bases": bases}):
+            # ports sliced out of a port that repeats a wire: see known_finding; keep a few
+            n_alias += 1
+            if n_alias > (25 if not thorough else 120):
+                continue
+            tag = "alias_under_slice"
         if rng.random() < 0.55:
             cases.append({"k": "buf", "tag": tag, "bases": bases, "e": e, "bd": bd,
                           "steps": _steps(rng, bases, 8, False, True)})
@@ -262,7 +316,7 @@ def gen_cases(tier, seed):
                     for bd in range(3):
                         cases.append({"k": "net", "tag": "whole" if (pd == 2 or pd == bd) else "baddir",
                                       "bases": [[kind, pd, w, _bits(m, w), 0]], "bufs": [[bd, ["b", 0]]]})
-    for _ in range(1200 if not thorough else 15000):
+    for _ in range(800 if not thorough else 10000):
         nb = rng.randrange(1, 4)
         kind = rng.choice((1, 2))
         bases = [_rand_base(rng, kind if rng.random() < 0.95 else 3 - kind, 2 if rng.random() < 0.8 else None, 5)
@@ -296,6 +350,7 @@ def gen_cases(tier, seed):
                 bufs.append([rng.randrange(3), e])
             tag = "rand"
         cases.append({"k": "net", "tag": tag, "bases": bases, "bufs": bufs})
+    rng.shuffle(cases)          # uniform shards
     return cases
 
 
